@@ -403,6 +403,26 @@ impl PeerTracker {
     }
 }
 
+/// Verification hook (add-only): lets a monitor exercise the expiry branch of [`PeerTracker::gc`]
+/// without waiting `EXPIRED_AFTER` of real time.
+#[cfg(eigerco_lumina_verif)]
+impl PeerTracker {
+    /// Moves every stored `disconnected_at` back by `by`. Returns `false` if some instant could
+    /// not be moved (monotonic clock younger than `by`).
+    pub(crate) fn verif_backdate_disconnected(&mut self, by: Duration) -> bool {
+        let mut all = true;
+        for peer in self.peers.values_mut() {
+            if let Some(tm) = peer.disconnected_at.as_mut() {
+                match tm.checked_sub(by) {
+                    Some(earlier) => *tm = earlier,
+                    None => all = false,
+                }
+            }
+        }
+        all
+    }
+}
+
 #[cfg(test)]
 mod tests {
     use crate::events::EventChannel;
